@@ -351,6 +351,12 @@ func NewManager(
 		return nil, err
 	}
 
+	// Blocks below the initial height do not exist: nothing below it is pending DA submission.
+	if genesis.InitialHeight > 1 {
+		pendingHeaders.base.lastHeight.CompareAndSwap(0, genesis.InitialHeight-1)
+		pendingData.base.lastHeight.CompareAndSwap(0, genesis.InitialHeight-1)
+	}
+
 	// If lastBatchHash is not set, retrieve the last batch hash from store
 	lastBatchDataBytes, err := store.GetMetadata(ctx, storepkg.LastBatchDataKey)
 	if err != nil && s.LastBlockHeight > 0 {
